@@ -45,6 +45,17 @@ pub fn progress(desc: impl FnOnce() -> String) {
     });
 }
 
+/// The case this thread published last (for reports about a panic of the subject outside `catch`).
+pub fn current_case() -> Option<String> {
+    MY.with(|h| {
+        if h.0.active.load(Ordering::Acquire) {
+            h.0.desc.lock().ok().map(|d| d.clone()).filter(|d| !d.is_empty())
+        } else {
+            None
+        }
+    })
+}
+
 /// This thread is between cases (not inside the subject).
 pub fn idle() {
     MY.with(|h| h.0.active.store(false, Ordering::Release));
